@@ -1,1 +1,59 @@
 // Kani contract harnesses for /repo/arrow-array/src/builder/generic_bytes_builder.rs (child module: sees private items via super::)
+use super::*;
+#[path = "/verif/kani/support/spec.rs"]
+mod spec;
+use spec::*;
+use crate::types::BinaryType;
+use crate::Array;
+
+// Contract (C01): GenericByteBuilder::<Binary> after append_value(2 bytes); append_null();
+// append_value(0 bytes); append_value(3 bytes) (byte contents symbolic; lengths concrete because they
+// size copies): offsets_slice() == prefix sums [0, 2, 2, 2, 5] (monotone, starts at 0, null slot has an
+// empty range), values_slice() == concatenation of the appended values, validity bits == [1, 0, 1, 1],
+// len() == 4.
+// @unit name=bytes_builder_state_model props=C01 kind=bounded bound=schedule_of_4_appends_value_lengths=(2,null,0,3) fns=GenericByteBuilder::append_value,GenericByteBuilder::append_null,GenericByteBuilder::offsets_slice,GenericByteBuilder::values_slice,GenericByteBuilder::validity_slice tier=thorough note=not_confirmed_at_checkpoint
+#[kani::proof]
+#[kani::unwind(10)]
+#[kani::stub(alloc::fmt::format, stub_format)]
+fn bytes_builder_state_model() {
+    let a: [u8; 2] = kani::any();
+    let c: [u8; 3] = kani::any();
+    let mut b = GenericByteBuilder::<BinaryType>::with_capacity(4, 8);
+    b.append_value(&a[..]);
+    b.append_null();
+    b.append_value(&[][..]);
+    b.append_value(&c[..]);
+    assert!(b.len() == 4);
+    let o = b.offsets_slice();
+    assert!(o.len() == 5 && o[0] == 0 && o[1] == 2 && o[2] == 2 && o[3] == 2 && o[4] == 5);
+    let v = b.values_slice();
+    assert!(v.len() == 5 && v[0] == a[0] && v[1] == a[1] && v[2] == c[0] && v[3] == c[1] && v[4] == c[2]);
+    let bm = b.validity_slice().unwrap();
+    assert!(bit(bm, 0) && !bit(bm, 1) && bit(bm, 2) && bit(bm, 3));
+    kani::cover!(a[0] != c[0]);
+}
+
+// Contract (C01, stretch): finish() after the same schedule returns a Binary array equal to the model.
+// @unit name=bytes_builder_finish_model props=C01 kind=bounded bound=schedule_of_4_appends_value_lengths=(2,null,0,3) fns=GenericByteBuilder::finish tier=thorough timeout=900 mem=10 note=not_confirmed_at_checkpoint
+#[kani::proof]
+#[kani::unwind(10)]
+#[kani::stub(alloc::fmt::format, stub_format)]
+fn bytes_builder_finish_model() {
+    let a: [u8; 2] = kani::any();
+    let c: [u8; 3] = kani::any();
+    let mut b = GenericByteBuilder::<BinaryType>::with_capacity(4, 8);
+    b.append_value(&a[..]);
+    b.append_null();
+    b.append_value(&[][..]);
+    b.append_value(&c[..]);
+    let arr = b.finish();
+    assert!(arr.len() == 4 && arr.null_count() == 1);
+    assert!(arr.is_null(1) && arr.value(2).is_empty());
+    let (v0, v3) = (arr.value(0), arr.value(3));
+    assert!(v0.len() == 2 && v0[0] == a[0] && v0[1] == a[1]);
+    assert!(v3.len() == 3 && v3[0] == c[0] && v3[1] == c[1] && v3[2] == c[2]);
+    let o = arr.value_offsets();
+    assert!(o.len() == 5 && o[0] == 0 && o[1] == 2 && o[2] == 2 && o[3] == 2 && o[4] == 5);
+    kani::cover!(true);
+    std::mem::forget(arr);
+}
